@@ -697,7 +697,12 @@ def call_method(it, recv, meth, args, kwargs, fr, node):
             org[0].val = z3.Store(org[0].val, org[1], recv.z)
         return r
     if isinstance(recv, VSet):
-        return m_set(it, recv, meth, args, kwargs)
+        r = m_set(it, recv, meth, args, kwargs)
+        org = getattr(recv, "origin", None)
+        if org is not None and recv.z is not None:
+            # the set was looked up in a map (d[k].add(x)): the map sees the mutation
+            org[0].val = z3.Store(org[0].val, org[1], recv.z)
+        return r
     if isinstance(recv, VDict):
         return m_dict(it, recv, meth, args, kwargs)
     if isinstance(recv, VMap):
